@@ -339,17 +339,23 @@ def convertEntries (ids : List Off) (u : UnitHdr) :
       | none => convertEntries ids u stack2 es ((o, parent) :: acc)
     else convertEntries ids u stack2 es acc
 
+/-- all units in order; `rootAttrs` are the reference-carrying attributes of the unit root DIEs
+(by position, missing = none): `ConvertUnit::convert` converts them before the entries, but
+`FilterUnit::new` skips the root's attributes, so they contribute no edges -/
 def convertUnits (ids : List Off) :
-    List (UnitHdr × List Entry) → Except ConvErr (List (List (Off × Option Off)))
-  | [] => .ok []
-  | (u, es) :: rest =>
-    -- `ConvertUnitSection::read_unit` reads the root first: it is reserved, so it is pushed when
-    -- it has children
-    match convertEntries ids u (if es.isEmpty then [] else [(0, u.rootOff)]) es [] with
-    | .error e => .error e
-    | .ok r => match convertUnits ids rest with
+    List (UnitHdr × List Entry) → List (List AttrRef) → Except ConvErr (List (List (Off × Option Off)))
+  | [], _ => .ok []
+  | (u, es) :: rest, ras =>
+    match firstErr ((ras.headD []).map (convAttr ids u)) with
+    | some e => .error e
+    | none =>
+      -- `ConvertUnitSection::read_unit` reads the root first: it is reserved, so it is pushed when
+      -- it has children
+      match convertEntries ids u (if es.isEmpty then [] else [(0, u.rootOff)]) es [] with
       | .error e => .error e
-      | .ok rs => .ok (r :: rs)
+      | .ok r => match convertUnits ids rest ras.tail with
+        | .error e => .error e
+        | .ok rs => .ok (r :: rs)
 
 /-- outcome of the whole pipeline on an abstract forest -/
 inductive Outcome where
@@ -360,7 +366,7 @@ inductive Outcome where
   deriving Repr, DecidableEq
 
 /-- filter, reachability, reservation by unit, conversion -/
-def run (m : Mode) (units : List (UnitHdr × List Entry)) : Outcome :=
+def run (m : Mode) (units : List (UnitHdr × List Entry)) (rootAttrs : List (List AttrRef) := []) : Outcome :=
   match buildDeps m units with
   | .panic w => .panic w
   | .diverge => .diverge
@@ -378,14 +384,14 @@ def run (m : Mode) (units : List (UnitHdr × List Entry)) : Outcome :=
       | .ok parts =>
         -- `entry_ids`: the root of every unit plus the reserved offsets
         let ids := units.map (·.1.rootOff) ++ parts.flatten
-        match convertUnits ids units with
+        match convertUnits ids units rootAttrs with
         | .error e => .convErr e
         | .ok us => .converted parts us
 
 /-- split DWARF: `FilterUnitSection::new_split`, `ConvertUnit::convert_split_with_filter`
 (`ConvertSplitUnitSection::new_with_filter` + `new_with_offsets`): only the first unit of the split
 section is converted and every reachable offset is reserved in it, without a per-unit scan -/
-def runSplit (m : Mode) (units : List (UnitHdr × List Entry)) : Outcome :=
+def runSplit (m : Mode) (units : List (UnitHdr × List Entry)) (rootAttrs : List (List AttrRef) := []) : Outcome :=
   match buildDeps m units with
   | .panic w => .panic w
   | .diverge => .diverge
@@ -399,7 +405,7 @@ def runSplit (m : Mode) (units : List (UnitHdr × List Entry)) : Outcome :=
       match units with
       | [] => .panic "MissingSplitUnit"
       | ue :: _ =>
-        match convertUnits (ue.1.rootOff :: offsets) [ue] with
+        match convertUnits (ue.1.rootOff :: offsets) [ue] rootAttrs with
         | .error e => .convErr e
         | .ok us => .converted [offsets] us
 
